@@ -12,7 +12,34 @@ __CPROVER_requires(__CPROVER_r_ok(pa, sizeof(*pa)) && __CPROVER_r_ok(pb, sizeof(
 __CPROVER_ensures((__CPROVER_return_value != 0) == (SPEC_LESS))
 __CPROVER_assigns();
 
+/* ---- one round of ActivateBestChain (inner do-while): FindMostWorkChain / ActivateBestChainStep / ReachedTarget are ghost-recording stubs ---- */
+const CBlockIndex* g_tip; const CBlockIndex* g_final_most_work; int g_steps, g_fmw_calls; const CBlockIndex* g_last_fmw;
+bool nondet_bool(void); unsigned nondet_uint(void);
+/* index entries are only compared and handed on in this fragment: any of a few distinct entries, or none */
+static char g_pool[4];
+static inline const CBlockIndex* nondet_index(void) { unsigned k = nondet_uint(); return k < 4 ? (const CBlockIndex*)&g_pool[k] : NULL; }
+static inline bool WorkComparator_stub(const CBlockIndex* a, const CBlockIndex* b) { return nondet_bool(); }
+static inline const CBlockIndex* FindMostWorkChain_stub(void) { g_fmw_calls = 1; g_last_fmw = nondet_index(); return g_last_fmw; }
+static inline bool ActivateBestChainStep_stub(const CBlockIndex* most_work, bool* fInvalidFound)      /* may move the tip, may find an invalid block, may fail */
+{ g_steps = 1; *fInvalidFound = nondet_bool(); g_tip = nondet_bool() ? g_tip : nondet_index(); return nondet_bool(); }
+static inline bool ReachedTarget_stub(void) { return nondet_bool(); }
+#define LOOP_ROUND \
+    __CPROVER_assigns(pindexMostWork, pindexNewTip, blocks_connected, g_tip, g_steps, g_fmw_calls, g_last_fmw) \
+    __CPROVER_loop_invariant((blocks_connected != 0) == (g_steps != 0))
+/* result: 0 = system error, 1 = "nothing to do" (early return true), 2 = goes on (notifications, outer loop) */
+int ActivateBestChain_round(const CBlockIndex* pindexMostWork, const CBlockIndex* starting_tip)
+__CPROVER_requires(g_steps == 0 && g_fmw_calls == 0 && g_tip == starting_tip)
+#ifdef TWIN_ROUND
+__CPROVER_ensures(__CPROVER_return_value == 2 ==> g_steps == 0)
+#else
+/* gives up early only if no activation step ran: the most-work candidate was absent or already the tip */
+__CPROVER_ensures(__CPROVER_return_value == 1 ==> g_steps == 0)
+__CPROVER_ensures(__CPROVER_return_value == 2 ==> g_steps != 0)
+#endif
+__CPROVER_assigns(g_tip, g_steps, g_fmw_calls, g_last_fmw, g_final_most_work);
+
 #include "slices.h"
+void h_activate_round(void) { const CBlockIndex *mw = nondet_index(), *st = nondet_index(); g_tip = st; int r = ActivateBestChain_round(mw, st); if (r == 1) VERIF_REACH_PT("nothing to do"); if (r == 2) VERIF_REACH_PT("goes on"); if (r == 0) VERIF_REACH_PT("system error"); }
 void h_WorkComparator(void) { CBlockIndex x, y; bool r = CBlockIndexWorkComparator(&x, &y); if (r) VERIF_REACH_PT("less"); else VERIF_REACH_PT("not less"); }
 #define LT(p, q) CBlockIndexWorkComparator(p, q)
 void h_lemma_work_order(void)
